@@ -2,6 +2,8 @@ import UralModel.Lemmas.SuffixTrie
 import UralModel.Lemmas.StrSplit
 import UralModel.Model.Tld
 import UralModel.Gen.SpecialHostsRe
+import UralModel.Gen.ProtocolRe
+import UralModel.Lemmas.TldUrl
 /-!
 # C08 — suffix and domain extraction follow the Public Suffix List algorithm
 
@@ -14,7 +16,9 @@ It never mentions the trie.  Every theorem below is for **every** rule list and 
 host: nothing is bounded, nothing depends on the bundled data.
 
 Hostnames are what `safe_urlsplit(url).hostname` returns (`none` = Python `None`); labels
-travel right-to-left inside the trie and the specification.
+travel right-to-left inside the trie and the specification.  The last part of the file
+("the hostname given inside a URL") states the same theorems for the functions as they are
+called — on a URL *string* — on top of the modelled CPython parser (`Model/TldUrl.lean`).
 -/
 set_option linter.unusedSectionVars false
 set_option linter.unusedVariables false
@@ -502,6 +506,330 @@ theorem punyLaws_id : PunyLaws (fun s => s) := by
     simp [hn]
   · rfl
 
+/-! ## The hostname given inside a URL
+
+`Model/TldUrl.lean`: `safe_urlsplit` (`PROTOCOL_RE`, `"http://"` put in front), the modelled
+`urlsplit` and `SplitResult.hostname`, then everything above.  `urlHost url` is the hostname
+the modelled parser extracts (`.error` = the `ValueError` of `urlsplit`, which the functions
+let through). -/
+section Url
+open Ural.TldUrl
+
+/-- **The string-level functions are the hostname-level functions on the hostname the parser
+extracts** — for every URL string; a `ValueError` of the parser is passed on by all of them. -/
+theorem url_functions_via_host (pub priv : List Str) (puny : Str → Str) (tlds : List Str)
+    (url : Str) :
+    (∀ h, urlHost url = .ok h →
+      splitSuffixUrl pub priv url = .ok (splitSuffix pub priv h) ∧
+      getDomainNameUrl pub priv url = .ok (getDomainName pub priv h) ∧
+      hasValidSuffixUrl pub priv url = .ok (hasValidSuffix pub priv h) ∧
+      extractSuffixUrl (suffixTrie pub priv) url = .ok (extractSuffix (suffixTrie pub priv) h) ∧
+      hasValidTldUrl puny tlds url = .ok (hasValidTld puny tlds h)) ∧
+    (∀ e, urlHost url = .error e →
+      splitSuffixUrl pub priv url = .error e ∧ getDomainNameUrl pub priv url = .error e ∧
+      hasValidSuffixUrl pub priv url = .error e ∧
+      extractSuffixUrl (suffixTrie pub priv) url = .error e ∧
+      hasValidTldUrl puny tlds url = .error e) := by
+  unfold urlHost splitSuffixUrl getDomainNameUrl hasValidSuffixUrl splitUrl extractDomainNameUrl
+    hasValidDomainNameUrl extractSuffixUrl hasValidTldUrl walkUrl
+  cases safeUrlsplit url with
+  | ok r =>
+    constructor
+    · intro h hh
+      simp only [Except.ok.injEq] at hh
+      subst hh
+      exact ⟨rfl, rfl, rfl, rfl, rfl⟩
+    · intro e he
+      cases he
+  | error e0 =>
+    constructor
+    · intro h hh
+      cases hh
+    · intro e he
+      cases e; cases e0
+      exact ⟨rfl, rfl, rfl, rfl, rfl⟩
+
+/-- **For every URL string, the result is what the Public Suffix algorithm gives on the
+hostname the parser extracts** (non-special hostname `hn`; `lines` = public then private
+suffixes): `split_suffix` cuts the label list `n` labels from the right, `get_domain_name`
+keeps `n + 1` labels, `has_valid_suffix` says whether a rule matched — `n = hostLen lines hn`
+being `pslLen` over the rule list, `None`/`False` when no rule matches. -/
+theorem url_psl_spec (pub priv : List Str) (url hn : Str) (hh : urlHost url = .ok (some hn))
+    (hs : isSpecialHost hn = false) :
+    splitSuffixUrl pub priv url = .ok ((hostLen (pub ++ priv) hn).map (fun n =>
+      (join dot ((hostParts hn).take ((hostParts hn).length - n)),
+       join dot ((hostParts hn).drop ((hostParts hn).length - n))))) ∧
+    getDomainNameUrl pub priv url = .ok ((hostLen (pub ++ priv) hn).map (fun n =>
+      join dot ((hostParts hn).drop ((hostParts hn).length - n - 1)))) ∧
+    hasValidSuffixUrl pub priv url = .ok (hostLen (pub ++ priv) hn).isSome ∧
+    extractSuffixUrl (suffixTrie pub priv) url = .ok ((hostLen (pub ++ priv) hn).map (fun n =>
+      join dot ((hostParts hn).drop ((hostParts hn).length - n)))) := by
+  obtain ⟨h1, h2, h3, h4, _⟩ := (url_functions_via_host pub priv (fun s => s) [] url).1 _ hh
+  rw [h1, h2, h3, h4]
+  simp only [splitSuffix, getDomainName, hasValidSuffix, suffixTrie]
+  rw [split_spec _ _ hs, extract_domain_name_spec _ _ hs, has_valid_spec _ _ hs,
+    extract_suffix_spec _ _ hs]
+  refine ⟨?_, ?_, ?_, ?_⟩ <;> first | rfl | trivial
+
+/-- **The negative cases, as the code treats them**: a URL without hostname (`""`, `/path`,
+`http://`, `http:///p`, `//`), or whose hostname is special (`localhost`, `1.2.3.4`, the text
+of an IPv6 literal `[::1]` — whatever `is_special_host` accepts), has no suffix, no domain
+name and no valid suffix; a URL that `urlsplit` rejects makes every function raise. -/
+theorem url_negative_cases (pub priv : List Str) (url : Str)
+    (h : urlHost url = .ok none ∨ ∃ hn, urlHost url = .ok (some hn) ∧ isSpecialHost hn = true) :
+    splitSuffixUrl pub priv url = .ok none ∧ getDomainNameUrl pub priv url = .ok none ∧
+    hasValidSuffixUrl pub priv url = .ok false ∧
+    extractSuffixUrl (suffixTrie pub priv) url = .ok none := by
+  have key : ∃ ho, urlHost url = .ok ho ∧
+      (ho = none ∨ ∃ hn, ho = some hn ∧ isSpecialHost hn = true) := by
+    rcases h with h | ⟨hn, h, hsp⟩
+    · exact ⟨none, h, Or.inl rfl⟩
+    · exact ⟨some hn, h, Or.inr ⟨hn, rfl, hsp⟩⟩
+  obtain ⟨ho, hh, hcase⟩ := key
+  obtain ⟨h1, h2, h3, h4, _⟩ := (url_functions_via_host pub priv (fun s => s) [] url).1 _ hh
+  obtain ⟨a, b, c, d⟩ := special_or_none_is_none (suffixTrie pub priv) ho hcase
+  rw [h1, h2, h3, h4]
+  simp only [splitSuffix, getDomainName, hasValidSuffix, a, b, c, d]
+  refine ⟨?_, ?_, ?_, ?_⟩ <;> first | rfl | trivial
+
+/-- **Scheme, userinfo, port, path, query and fragment do not matter; nor does the ASCII
+letter case of the host.**  Whatever stands before the authority (`scheme://` for any scheme
+of 1–64 ASCII letters in any case, `//`, or nothing), whatever userinfo and port text the
+authority carries and whatever follows it (`rest`: empty or starting with `/`, `?` or `#`),
+the hostname the parser extracts from `lead ++ userinfo@host:port ++ rest` is the
+lower-cased host. -/
+theorem url_host_of_parts (l : Lead) (ui : Option Str) (host : Str) (port : Option Str)
+    (rest : Str) (hl : l.Ok (netlocOf ui host port ++ rest)) (hu : UiChars ui)
+    (hh : HostChars host) (hp : PortChars port) (hc : NetlocChars (netlocOf ui host port))
+    (hr : RestOk rest) :
+    urlHost (assemble l ui host port rest) = .ok (some (lower host)) := by
+  unfold assemble
+  rw [urlHost_lead l _ rest hl hc hr, netlocOk_netlocOf ui host port hu hh hp,
+    hostname_netlocOf ui host port hh hp]
+  rfl
+
+/-- the five functions on an assembled URL are the hostname-level functions on the
+lower-cased host -/
+theorem url_functions_of_parts (pub priv : List Str) (puny : Str → Str) (tlds : List Str)
+    (l : Lead) (ui : Option Str) (host : Str) (port : Option Str)
+    (rest : Str) (hl : l.Ok (netlocOf ui host port ++ rest)) (hu : UiChars ui)
+    (hh : HostChars host) (hp : PortChars port) (hc : NetlocChars (netlocOf ui host port))
+    (hr : RestOk rest) :
+    splitSuffixUrl pub priv (assemble l ui host port rest) =
+      .ok (splitSuffix pub priv (some (lower host))) ∧
+    getDomainNameUrl pub priv (assemble l ui host port rest) =
+      .ok (getDomainName pub priv (some (lower host))) ∧
+    hasValidSuffixUrl pub priv (assemble l ui host port rest) =
+      .ok (hasValidSuffix pub priv (some (lower host))) ∧
+    extractSuffixUrl (suffixTrie pub priv) (assemble l ui host port rest) =
+      .ok (extractSuffix (suffixTrie pub priv) (some (lower host))) ∧
+    hasValidTldUrl puny tlds (assemble l ui host port rest) =
+      .ok (hasValidTld puny tlds (some (lower host))) :=
+  (url_functions_via_host pub priv puny tlds _).1 _
+    (url_host_of_parts l ui host port rest hl hu hh hp hc hr)
+
+/-- **Two URLs whose hosts differ in ASCII letter case only get the same answers**, whatever
+their schemes, userinfos, ports, paths, queries and fragments are. -/
+theorem url_invariance (pub priv : List Str) (puny : Str → Str) (tlds : List Str)
+    (l l' : Lead) (ui ui' : Option Str) (host host' : Str) (port port' : Option Str)
+    (rest rest' : Str)
+    (hl : l.Ok (netlocOf ui host port ++ rest)) (hu : UiChars ui)
+    (hh : HostChars host) (hp : PortChars port) (hc : NetlocChars (netlocOf ui host port))
+    (hr : RestOk rest)
+    (hl' : l'.Ok (netlocOf ui' host' port' ++ rest')) (hu' : UiChars ui')
+    (hh' : HostChars host') (hp' : PortChars port')
+    (hc' : NetlocChars (netlocOf ui' host' port')) (hr' : RestOk rest')
+    (hcase : lower host = lower host') :
+    splitSuffixUrl pub priv (assemble l ui host port rest) =
+      splitSuffixUrl pub priv (assemble l' ui' host' port' rest') ∧
+    getDomainNameUrl pub priv (assemble l ui host port rest) =
+      getDomainNameUrl pub priv (assemble l' ui' host' port' rest') ∧
+    hasValidSuffixUrl pub priv (assemble l ui host port rest) =
+      hasValidSuffixUrl pub priv (assemble l' ui' host' port' rest') ∧
+    hasValidTldUrl puny tlds (assemble l ui host port rest) =
+      hasValidTldUrl puny tlds (assemble l' ui' host' port' rest') := by
+  obtain ⟨a1, a2, a3, _, a5⟩ :=
+    url_functions_of_parts pub priv puny tlds l ui host port rest hl hu hh hp hc hr
+  obtain ⟨b1, b2, b3, _, b5⟩ :=
+    url_functions_of_parts pub priv puny tlds l' ui' host' port' rest' hl' hu' hh' hp' hc' hr'
+  rw [a1, a2, a3, a5, b1, b2, b3, b5, hcase]
+  exact ⟨rfl, rfl, rfl, rfl⟩
+
+/-- a host text (no `/`, `:` …) given bare is not mistaken for a URL with a scheme -/
+theorem bare_host_ok (host : Str) (hh : HostChars host) (hc : NetlocChars host) :
+    Lead.Ok .bare (netlocOf none host none ++ []) := by
+  have e : netlocOf none host none ++ [] = host := by simp [netlocOf, uiPart, portPart]
+  show protoLen (netlocOf none host none ++ []) = none
+  rw [e]
+  apply protoLen_none_of_no_colon _ hh.2.2.1
+  cases host with
+  | nil => rfl
+  | cons c r =>
+    have hd := (hc c (by simp)).1
+    have : c ≠ '/' := by rintro rfl; revert hd; decide
+    rw [UrlRoundTrip.startsWith_cons_cons]
+    simp [this]
+
+/-- **Given bare or inside a URL**: the answers on `lead ++ userinfo@host:port ++ rest` are
+the answers on the string `host` alone. -/
+theorem url_same_as_bare_host (pub priv : List Str) (puny : Str → Str) (tlds : List Str)
+    (l : Lead) (ui : Option Str) (host : Str) (port : Option Str)
+    (rest : Str) (hl : l.Ok (netlocOf ui host port ++ rest)) (hu : UiChars ui)
+    (hh : HostChars host) (hp : PortChars port) (hc : NetlocChars (netlocOf ui host port))
+    (hr : RestOk rest) :
+    splitSuffixUrl pub priv (assemble l ui host port rest) = splitSuffixUrl pub priv host ∧
+    getDomainNameUrl pub priv (assemble l ui host port rest) = getDomainNameUrl pub priv host ∧
+    hasValidSuffixUrl pub priv (assemble l ui host port rest) = hasValidSuffixUrl pub priv host ∧
+    hasValidTldUrl puny tlds (assemble l ui host port rest) = hasValidTldUrl puny tlds host := by
+  have hch : NetlocChars host := by
+    intro c hcm
+    apply hc c
+    unfold netlocOf
+    simp [hcm]
+  have e : assemble .bare none host none [] = host := by
+    simp [assemble, Lead.str, netlocOf, uiPart, portPart]
+  have hch' : NetlocChars (netlocOf none host none) := by
+    have : netlocOf none host none = host := by simp [netlocOf, uiPart, portPart]
+    rw [this]; exact hch
+  have := url_invariance pub priv puny tlds l .bare ui none host host port none rest []
+    hl hu hh hp hc hr (bare_host_ok host hh hch) (by intro u hu; cases hu) hh
+    (by intro p hp; cases hp) hch' (by intro c hc; cases hc) rfl
+  rw [e] at this
+  exact this
+
+/-- **String-level statement of the property for assembled URLs**: for every lead, userinfo,
+port and rest, and every host text whose lower-cased form is not special, `split_suffix`,
+`get_domain_name` and `has_valid_suffix` of the URL are given by the Public Suffix algorithm
+(`hostLen = pslLen` over the rule list) run on the labels of the host — lower-cased, trailing
+dots removed. -/
+theorem url_psl_of_parts (pub priv : List Str)
+    (l : Lead) (ui : Option Str) (host : Str) (port : Option Str)
+    (rest : Str) (hl : l.Ok (netlocOf ui host port ++ rest)) (hu : UiChars ui)
+    (hh : HostChars host) (hp : PortChars port) (hc : NetlocChars (netlocOf ui host port))
+    (hr : RestOk rest) (hs : isSpecialHost (lower host) = false) :
+    splitSuffixUrl pub priv (assemble l ui host port rest) =
+      .ok ((hostLen (pub ++ priv) host).map (fun n =>
+        (join dot ((hostParts host).take ((hostParts host).length - n)),
+         join dot ((hostParts host).drop ((hostParts host).length - n))))) ∧
+    getDomainNameUrl pub priv (assemble l ui host port rest) =
+      .ok ((hostLen (pub ++ priv) host).map (fun n =>
+        join dot ((hostParts host).drop ((hostParts host).length - n - 1)))) ∧
+    hasValidSuffixUrl pub priv (assemble l ui host port rest) =
+      .ok (hostLen (pub ++ priv) host).isSome := by
+  have hp' : hostParts (lower host) = hostParts host := by simp only [hostParts, lower_idem]
+  have hl' : hostLen (pub ++ priv) (lower host) = hostLen (pub ++ priv) host := by
+    simp only [hostLen, hp']
+  obtain ⟨a, b, c, _⟩ := url_psl_spec pub priv _ _
+    (url_host_of_parts l ui host port rest hl hu hh hp hc hr) hs
+  rw [a, b, c, hp', hl']
+  exact ⟨rfl, rfl, rfl⟩
+
+/-- `HostChars` survives a trailing dot -/
+theorem hostChars_dot (host : Str) (hh : HostChars host) : HostChars (host ++ ['.']) := by
+  obtain ⟨h0, h1, h2, h3, h4, h5⟩ := hh
+  refine ⟨by simp, ?_, ?_, ?_, ?_, ?_⟩ <;>
+    (simp only [List.mem_append, List.mem_cons, List.not_mem_nil, or_false, not_or]
+     refine ⟨by assumption, by decide⟩)
+
+/-- **A trailing dot on the host inside a URL does not matter** (non-special hosts) -/
+theorem url_trailing_dot (pub priv : List Str)
+    (l : Lead) (ui : Option Str) (host : Str) (port : Option Str) (rest : Str)
+    (hl : l.Ok (netlocOf ui host port ++ rest))
+    (hld : l.Ok (netlocOf ui (host ++ ['.']) port ++ rest)) (hu : UiChars ui)
+    (hh : HostChars host) (hp : PortChars port) (hc : NetlocChars (netlocOf ui host port))
+    (hr : RestOk rest) (hs : isSpecialHost (lower host) = false)
+    (hsd : isSpecialHost (lower host ++ ['.']) = false) :
+    splitSuffixUrl pub priv (assemble l ui (host ++ ['.']) port rest) =
+      splitSuffixUrl pub priv (assemble l ui host port rest) ∧
+    getDomainNameUrl pub priv (assemble l ui (host ++ ['.']) port rest) =
+      getDomainNameUrl pub priv (assemble l ui host port rest) ∧
+    hasValidSuffixUrl pub priv (assemble l ui (host ++ ['.']) port rest) =
+      hasValidSuffixUrl pub priv (assemble l ui host port rest) := by
+  have hcd : NetlocChars (netlocOf ui (host ++ ['.']) port) := by
+    intro c hcm
+    unfold netlocOf at hcm hc
+    simp only [List.mem_append, List.mem_cons, List.not_mem_nil, or_false] at hcm
+    rcases hcm with (hcm | hcm | rfl) | hcm
+    · exact hc c (by simp [hcm])
+    · exact hc c (by simp [hcm])
+    · exact ⟨by decide, by decide⟩
+    · exact hc c (by simp [hcm])
+  obtain ⟨a1, a2, a3, _, _⟩ := url_functions_of_parts pub priv (fun s => s) []
+    l ui host port rest hl hu hh hp hc hr
+  obtain ⟨b1, b2, b3, _, _⟩ := url_functions_of_parts pub priv (fun s => s) []
+    l ui (host ++ ['.']) port rest hld hu (hostChars_dot host hh) hp hcd hr
+  have hlow : lower (host ++ ['.']) = lower host ++ ['.'] := by
+    simp only [lower, List.map_append, List.map_cons, List.map_nil]
+    have : lowerChar '.' = '.' := by decide
+    rw [this]
+  obtain ⟨t1, t2, _, t4⟩ := split_trailing_dot (suffixTrie pub priv) (lower host) hs hsd
+  rw [a1, a2, a3, b1, b2, b3, hlow]
+  simp only [splitSuffix, getDomainName, hasValidSuffix, t1, t2, t4]
+  refine ⟨?_, ?_, ?_⟩ <;> first | rfl | trivial
+
+/-- **IP literals**: from `lead ++ userinfo@[h]:port ++ rest` the parser extracts the text
+between the brackets (lower-cased up to a `%zone`) when `urlsplit` accepts it, and raises
+`ValueError` otherwise; `[::1]`, `[2001:db8::1]` … are then special hosts
+(`url_negative_cases`). -/
+theorem url_host_bracketed (l : Lead) (ui : Option Str) (h : Str) (port : Option Str)
+    (rest : Str) (hl : l.Ok (netlocBr ui h port ++ rest)) (hu : UiChars ui)
+    (hh : BrChars h) (hp : PortChars port) (hc : NetlocChars (netlocBr ui h port))
+    (hr : RestOk rest) :
+    urlHost (l.str ++ netlocBr ui h port ++ rest) =
+      if bracketedHostOk h then .ok (if h = [] then none else some (lowerHost h))
+      else .error .valueError := by
+  rw [urlHost_lead l _ rest hl hc hr, netlocOk_netlocBr ui h port hu hh hp,
+    hostname_netlocBr ui h port hh hp]
+
+/-! Non-vacuity of the URL-level statements, on `*.ck`, `!www.ck`, `co.uk`, `*.firenet.ch`,
+`*.svc.firenet.ch` (public) and no private rule. -/
+section NonVacuityUrl
+
+example : splitSuffixUrl linesS [] "HTTPS://user:pw@WWW.Example.CO.UK.:8080/p?q=1#f".toList =
+    .ok (some ("www.example".toList, "co.uk".toList)) := by decide +kernel
+example : getDomainNameUrl linesS [] "www.example.co.uk:80/p".toList =
+    .ok (some "example.co.uk".toList) := by decide +kernel
+example : splitSuffixUrl linesS [] "//a.www.ck/x".toList = .ok (some ("a.www".toList, "ck".toList)) := by
+  decide +kernel
+-- negative cases
+example : splitSuffixUrl linesS [] "http://[::1]:80/x".toList = .ok none ∧
+    splitSuffixUrl linesS [] "localhost:8080".toList = .ok none ∧
+    splitSuffixUrl linesS [] "http://1.2.3.4/co.uk".toList = .ok none ∧
+    splitSuffixUrl linesS [] "".toList = .ok none ∧
+    splitSuffixUrl linesS [] "/co.uk".toList = .ok none ∧
+    splitSuffixUrl linesS [] "http:///co.uk".toList = .ok none ∧
+    splitSuffixUrl linesS [] "http://ck/".toList = .ok none ∧
+    hasValidSuffixUrl linesS [] "http://[::1/x".toList = .error .valueError := by
+  refine ⟨?_, ?_, ?_, ?_, ?_, ?_, ?_, ?_⟩ <;> decide +kernel
+-- empty labels are ordinary labels: `a..co.uk` has the suffix `co.uk`
+example : splitSuffixUrl linesS [] "http://a..co.uk/".toList = .ok (some ("a.".toList, "co.uk".toList)) := by
+  decide +kernel
+-- the hypotheses of `url_psl_of_parts` hold for a scheme / userinfo / port / path URL
+example : (Lead.scheme "HTTPS".toList).Ok (netlocOf (some "user:pw".toList) "WWW.Example.CO.UK".toList
+      (some "8080".toList) ++ "/p?q=1#f".toList) ∧
+    UiChars (some "user:pw".toList) ∧ HostChars "WWW.Example.CO.UK".toList ∧
+    PortChars (some "8080".toList) ∧
+    NetlocChars (netlocOf (some "user:pw".toList) "WWW.Example.CO.UK".toList (some "8080".toList)) ∧
+    RestOk "/p?q=1#f".toList ∧ isSpecialHost (lower "WWW.Example.CO.UK".toList) = false := by
+  refine ⟨?_, ?_, ?_, ?_, ?_, ?_, ?_⟩ <;> decide +kernel
+-- … and for a scheme-less one (`Lead.bare`): `host:80/p` is not mistaken for a scheme
+example : Lead.bare.Ok (netlocOf none "a.co.uk".toList (some "80".toList) ++ "/p".toList) := by
+  show protoLen _ = none
+  decide +kernel
+-- the one ambiguous scheme-less spelling is excluded by `Lead.Ok`: `abc://x` has the host `x`
+example : urlHost "abc://x".toList = .ok (some "x".toList) ∧
+    ¬ Lead.bare.Ok (netlocOf none "abc".toList (some []) ++ "//x".toList) := by
+  refine ⟨by decide +kernel, ?_⟩
+  show ¬ (protoLen _ = none)
+  decide +kernel
+-- a scheme that is not made of letters only is not a scheme for `PROTOCOL_RE`: the hypothesis
+-- `AlphaProto` of `Lead.Ok` is needed
+example : urlHost "svn+ssh://a.co.uk/".toList = .ok (some "svn+ssh".toList) := by decide +kernel
+
+end NonVacuityUrl
+
+end Url
+
 /-! ## table obligation -/
 
 /-- the hand-written `isSpecialHost` answers like the real compiled `SPECIAL_HOSTS_RE` on
@@ -509,5 +837,10 @@ every probe host regenerated from the source for this run -/
 theorem special_hosts_probes :
     Ural.Gen.SpecialHostsRe.probes.all (fun p => isSpecialHost p.1 == p.2) = true := by
   decide +kernel
+
+/-- the pattern of `PROTOCOL_RE` found in the source is the one `protoLen` (used by the model
+of `safe_urlsplit`) was written for -/
+theorem protocol_pattern_unchanged :
+    Gen.protocolRePattern = protocolPatternModelled ∧ Gen.protocolReFlags = 32 := by decide
 
 end Ural.Props.C08
